@@ -807,7 +807,12 @@ impl Property for C13 {
         "Seeds sample write scenarios (7 write paths x schema/values or serde corpus type x codec/block size/metadata/finish). \
          Per scenario the fault space is enumerated: 6 accept policies without error, and a single fault \
          (Other, Interrupted, WriteZero, Ok(0)) at EVERY write-call index under two accept policies, a flush error at every \
-         flush index, and disk-full at 6-8 byte offsets. One evaluation = one execution under one sink plan, judged against the \
+         flush index, and disk-full at 6-8 byte offsets; serde scenarios also with the record schema's fields in another order than \
+         the Rust type, datum scenarios also with bare record values for unions of same-shaped records. Container scenarios are run \
+         once more in continuation mode: one write error at every call index (under two accept policies) or one flush error, the \
+         caller carries on and finishes with into_inner; if every later call returns Ok, what was delivered (the torn piece of the \
+         failed call set aside) must be a well-formed file holding the attempted values in order, each at most once, every \
+         acknowledged one present. One evaluation = one execution under one sink plan, judged against the \
          same scenario on a perfect sink. distinct_nontrivial counts distinct (write path, API that was in flight, accept policy, \
          fault kind, outcome) tuples in which the plan actually changed the sink's behaviour (a short accept or a fault fired)."
             .into()
@@ -827,12 +832,12 @@ impl Property for C13 {
     }
     fn runs(&self, tier: Tier) -> u64 {
         match tier {
-            Tier::Quick => 1500,
+            Tier::Quick => 12_000,
             Tier::Thorough => 60_000,
         }
     }
     fn required_probes(&self) -> Vec<&'static str> {
-        vec!["probe.short_accept_fired", "probe.fault_fired_during_flush_api", "probe.error_during_drop", "probe.size_threshold_flush"]
+        vec!["probe.short_accept_fired", "probe.fault_fired_during_flush_api", "probe.error_during_drop", "probe.size_threshold_flush", "probe.continued_after_reported_error_to_a_clean_finish"]
     }
 
     fn generate(&self, rng: &mut Rng, _run: u64, _tier: Tier) -> Option<Case> {
